@@ -90,7 +90,7 @@ def instruction(ops=None, aligned_only=False, mem_base=8):
 @st.composite
 def template(draw, aligned_only=False):
     """Structured blocks: counted loop, call/return, print / exit sequences, load-use, store-load."""
-    kind = draw(st.sampled_from(["loop", "call", "print", "exit", "loaduse", "storeload", "printstr"]))
+    kind = draw(st.sampled_from(["loop", "call", "print", "exit", "loaduse", "storeload", "printstr", "jalrwrap"]))
     body_ops = [o for o in rv32.ALL_OPS if o not in rv32.BRANCH_OPS + ["jal", "jalr", "ecall"]]
     body = lambda n: draw(st.lists(instruction(body_ops, aligned_only), min_size=0, max_size=n))  # noqa: E731
     if kind == "loop":
@@ -114,6 +114,15 @@ def template(draw, aligned_only=False):
         pre = draw(st.lists(instruction(body_ops, aligned_only), max_size=2))
         post = draw(st.lists(instruction(None, aligned_only), max_size=2))
         return [["addi", 17, 0, code]] + pre + [["ecall"]] + post
+    if kind == "jalrwrap":
+        # indirect jump whose target computation wraps around 2^32 (or has bit 0 set) and lands inside the program
+        r = draw(st.sampled_from([1, 2, 3, 5]))
+        k = draw(st.sampled_from([-4, -8, -1, -3, -2048]))
+        tgt = 4 * draw(st.integers(0, 12)) + draw(st.sampled_from([0, 0, 1]))
+        if not -2048 <= tgt - k <= 2047:
+            tgt = 4
+        gap = draw(st.lists(st.just(["addi", 0, 0, 0]), max_size=3))
+        return [["addi", r, 0, k]] + gap + [["jalr", draw(st.sampled_from([0, 1, r])), r, tgt - k]]
     if kind == "loaduse":
         r = draw(st.sampled_from([1, 2, 3]))
         off = 4 * draw(st.integers(0, 6))
